@@ -86,7 +86,7 @@ def run_property(pid, tier, args):
     if hs:
         rc = C.copy_repo(scratch)
         K.overlay(rc)
-        ok, blog, bt = K.build(rc, logdir)
+        ok, blog, bt = K.build(rc, logdir, hs)
         C.log("[K] build %s in %.0fs" % ("ok" if ok else "FAILED", bt))
         if not ok:
             errs = [l for l in blog.split("\n") if l.startswith("error")][:5]
